@@ -1555,7 +1555,7 @@ def linkend(pid):
                 n += 1
                 cell = pr.operand(c.term["args"][1])
                 atoms = g.atoms_at(("t", bb))
-                ok_ = any(re.match(r"^\(Eq\((.*),const:(\w+::)*END_OF_CHAIN\)\)$", a) and cell in a for a in atoms)
+                ok_ = any(re.match(r"^\(Eq\((.*),const:((\w+::)*END_OF_CHAIN|4294967294)\)\)$", a) and cell in a for a in atoms)
                 why = "the cell was found to hold END_OF_CHAIN"
                 if not ok_ and cell.startswith("param:"):
                     # the function trusts its argument: every caller must pass the last id of its own list
